@@ -389,6 +389,13 @@ func (f *Frame) binop(x *ssa.BinOp) {
 		f.setVal(x, "Bool", S(op, a, b))
 	case token.AND, token.AND_NOT:
 		// only masks with constants of the form 2^k-1
+		if c, ok := x.Y.(*ssa.Const); ok && isInt && x.Op == token.AND {
+			// x & -2^k (written x & ^(2^k-1)) clears the low k bits
+			if m, ok2 := constInt64(c); ok2 && m < 0 && m != -1<<63 && ((-m)&(-m-1)) == 0 {
+				f.setVal(x, "Int", S("-", a, S("mod", a, fmt.Sprint(-m))))
+				return
+			}
+		}
 		if c, ok := x.Y.(*ssa.Const); ok && isInt {
 			if m, ok2 := constInt64(c); ok2 && m > 0 && (m&(m+1)) == 0 {
 				p := fmt.Sprint(m + 1)
